@@ -14,6 +14,7 @@ import Cnl2aspModel.Compiler.Surface
 import Cnl2aspModel.Compiler.Scope
 import Cnl2aspModel.Compiler.Explain
 import Cnl2aspModel.Compiler.Link
+import Cnl2aspModel.Compiler.Value
 
 open Lean Cnl2aspModel
 
@@ -320,6 +321,10 @@ def link (j : Json) : Json :=
               ("a2", Json.arr (st.a1.attrs.map fun x => Json.str x.value).toArray)]
 end C08
 
+open Value in
+def c06value (j : Json) : Json :=
+  Json.mkObj [("ok", Json.str (chars (convertValue ((jstrs j "consts").map String.toList) (jstr j "v").toList)))]
+
 open LineCol in
 def linecol (j : Json) : Json :=
   let s := (jstr j "s").toList
@@ -346,6 +351,7 @@ def dispatch (op : String) (j : Json) : Json :=
   | "c09.keys" => Ops.c09keys j
   | "c17.check" => Ops.C17.run j
   | "c15.printer" => Ops.c15printer j
+  | "c06.value" => Ops.c06value j
   | "c08.origin" => Ops.C08.origin j
   | "c08.link" => Ops.C08.link j
   | _ => Json.mkObj [("err", "bad-op")]
